@@ -9,7 +9,7 @@ use crate::{
     },
     codec::*,
     core::{
-        base_types::{NonZero, QoS},
+        base_types::{NonZero, QoS, VarSizeInt},
         utils::{Encode, SizedPacket},
     },
     PublishData, SubscriptionOpts,
@@ -32,6 +32,28 @@ pub struct ContextHandle {
 }
 
 impl ContextHandle {
+    /// Allocates the next packet identifier. Zero is not a valid MQTT packet identifier
+    /// and is skipped when the counter wraps around.
+    fn next_packet_id(&self) -> u16 {
+        loop {
+            let id = self.packet_id.fetch_add(1, Ordering::Relaxed);
+            if id != 0 {
+                return id;
+            }
+        }
+    }
+
+    /// Allocates the next subscription identifier, within 1..=268435455 (the range of a
+    /// non-zero Variable Byte Integer).
+    fn next_sub_id(&self) -> u32 {
+        loop {
+            let id = self.sub_id.fetch_add(1, Ordering::Relaxed) & (VarSizeInt::MAX as u32);
+            if id != 0 {
+                return id;
+            }
+        }
+    }
+
     /// Performs graceful disconnection with the broker by sending the
     /// [Disconnect](https://docs.oasis-open.org/mqtt/mqtt/v5.0/os/mqtt-v5.0-os.html#_Toc3901205) packet.
     ///
@@ -109,7 +131,7 @@ impl ContextHandle {
             }
             QoS::AtLeastOnce => {
                 let packet = opts
-                    .packet_identifier(self.packet_id.fetch_add(1, Ordering::Relaxed))
+                    .packet_identifier(self.next_packet_id())
                     .build()?;
 
                 let mut buf = BytesMut::with_capacity(packet.packet_len());
@@ -141,7 +163,7 @@ impl ContextHandle {
             }
             QoS::ExactlyOnce => {
                 let packet = opts
-                    .packet_identifier(self.packet_id.fetch_add(1, Ordering::Relaxed))
+                    .packet_identifier(self.next_packet_id())
                     .build()?;
 
                 let mut buf = BytesMut::with_capacity(packet.packet_len());
@@ -226,8 +248,8 @@ impl ContextHandle {
         let (str_sender, str_receiver) = mpsc::unbounded();
 
         let packet = opts
-            .packet_identifier(self.packet_id.fetch_add(1, Ordering::Relaxed))
-            .subscription_identifier(self.sub_id.fetch_add(1, Ordering::Relaxed))
+            .packet_identifier(self.next_packet_id())
+            .subscription_identifier(self.next_sub_id())
             .build()?;
 
         let subscription_identifier = NonZero::from(packet.subscription_identifier.unwrap())
@@ -269,7 +291,7 @@ impl ContextHandle {
         let (sender, receiver) = oneshot::channel();
 
         let packet = opts
-            .packet_identifier(self.packet_id.fetch_add(1, Ordering::Relaxed))
+            .packet_identifier(self.next_packet_id())
             .build()?;
 
         let mut buf = BytesMut::with_capacity(packet.packet_len());
